@@ -12,7 +12,12 @@ PY = "/venv/bin/python"
 FEATURES = ["custom_lro", "server_stream", "bidi_stream", "client_stream", "scalars", "single_enum", "nested", "recursive_optional",
             "map_field", "oneof_flat", "proto3_optional", "reserved_field", "required_scalars_query", "required_message_query",
             "uuid4", "routing", "additional_bindings", "multi_seg_var", "two_path_vars", "int_path_var", "body_star", "paged_wrapper",
-            "paged_scalar", "paged_map", "delete_void", "keyword_rpc", "second_service", "resource_second", "repeated_scalars", "toplevel_collection", "no_http_methods"]
+            "paged_scalar", "paged_map", "delete_void", "keyword_rpc", "second_service", "resource_second", "repeated_scalars", "toplevel_collection", "no_http_methods",
+            # deepening round 2: shapes the mock-value logic treats specially, and layouts
+            "tree_map", "wkt_flattened", "any_struct_fields", "nested_enum", "second_file", "put_verb", "lro_empty", "deprecated_method",
+            "oneof_message", "enum_late_nonzero"]
+# NOT drawn at random while the finding is open (the generator raises RecursionError): only replayed from the corpus
+FINDING_FEATURES = ["tree_map_first"]
 
 
 def gen_case(r: apigen.Rng):
@@ -31,12 +36,25 @@ def gen_case(r: apigen.Rng):
         opts = [o for o in opts if o != "add-iam-methods"]
     # the async-REST experiment (service yaml, publishing settings); it only changes the surface when rest is requested
     rest_async = (not ads) and "rest" in tr and r.maybe(0.3)
+    # naming overrides move every emitted module (imports in the emitted tests must follow); lazy-import changes the package __init__
+    if not ads and r.maybe(0.2):
+        opts += r.sample(["python-gapic-namespace=Acme", "python-gapic-name=libra", "warehouse-package-name=acme-libra"], r.randint(1, 3))
+    if not ads and r.maybe(0.1):
+        opts.append("lazy-import")
+    if ads and "second_file" in feats:
+        feats = [x for x in feats if x != "second_file"]
     return {"features": feats, "opts": opts, "mixins": sorted(mixins), "ads": ads, "rest_async": rest_async}
 
 
 def build(case):
+    fs = build_files(case)
+    return fs[0] if len(fs) == 1 else fs
+
+
+def build_files(case):
     F = set(case["features"])
     f = apigen.File("acme/lib/v1/lib.proto", PKG)
+    extra_files = []
     genre = f.enum("Genre", ["GENRE_UNSPECIFIED", "FICTION", "POETRY"])
     book = f.msg("Book").resource("lib.example.com/Book", "shelves/{shelf}/books/{book}")
     book.field("name"); book.field("title"); book.field("pages", "int32"); book.field("genre", "enum", type_name=genre)
@@ -139,7 +157,59 @@ def build(case):
     if "second_service" in F:
         s2 = f.service("Catalog")
         s2.method("GetBook", g, book, http=("get", "/v1/catalog/{name=shelves/*/books/*}"), sigs=["name"])
-    return f
+    if "tree_map" in F or "tree_map_first" in F:
+        # a tree resource: map<string, Node> back to the message.  With the map as FIRST field `Field.mock_value` of the flattened
+        # `node` never ends (finding generation:RecursionError@schema/wrappers.py:map)
+        node = f.msg("Node").resource("lib.example.com/Node", "nodes/{node}")
+        if "tree_map_first" in F:
+            node.map_field("children", "string", "message", vtype_name=node); node.field("name")
+        else:
+            node.field("name"); node.map_field("children", "string", "message", vtype_name=node)
+        node.field("parent_node", "message", type_name=node)
+        cn = f.msg("CreateNodeRequest"); cn.field("parent", required=True); cn.field("node", "message", type_name=node, required=True)
+        gn = f.msg("GetNodeRequest"); gn.field("name", required=True)
+        s.method("GetNode", gn, node, http=("get", "/v1/{name=nodes/*}"), sigs=["name"])
+        s.method("CreateNode", cn, node, http=("post", "/v1/{parent=nodes/*}/nodes"), body="node", sigs=["parent,node"])
+    if "wkt_flattened" in F:
+        # flattened well-known types: the emitted flattened tests have a branch per kind (Timestamp / Duration / wrappers)
+        rn = f.msg("RenewBookRequest"); rn.field("name", required=True)
+        rn.field("until", "message", type_name=".google.protobuf.Timestamp"); rn.field("grace", "message", type_name=".google.protobuf.Duration")
+        rn.field("copies", "message", type_name=".google.protobuf.UInt32Value"); rn.field("mask", "message", type_name=".google.protobuf.FieldMask")
+        s.method("RenewBook", rn, book, http=("post", "/v1/{name=shelves/*/books/*}:renew"), body="*", sigs=["name,until,grace", "name,mask"])
+    if "any_struct_fields" in F:
+        book.field("payload", "message", type_name=".google.protobuf.Any"); book.field("extras", "message", type_name=".google.protobuf.Struct")
+        book.field("created", "message", type_name=".google.protobuf.Timestamp"); book.field("attachments", "message", repeated=True, type_name=".google.protobuf.Any")
+    if "nested_enum" in F:
+        st_e = book.nested_enum("State", ["STATE_UNSPECIFIED", "ON_SHELF", "LENT"]); book.field("state", "enum", type_name=st_e)
+        book.field("past_states", "enum", repeated=True, type_name=st_e)
+    if "enum_late_nonzero" in F:
+        # aliased zero first, first non-zero value late (a NEGATIVE number would make the types module un-importable: proto-plus
+        # sorts the values and protobuf wants 0 first — a C01/C02 matter, kept out of this profile)
+        late = f.enum("Late", [("LATE_UNSPECIFIED", 0), ("ALSO_ZERO", 0), ("TEN", 10), ("DIX", 10)]); late.pb.options.allow_alias = True
+        book.field("late", "enum", type_name=late)
+    if "oneof_message" in F:
+        cov = f.msg("Cover"); cov.field("material"); cov.field("thickness", "float")
+        book.field("hard", "message", type_name=cov, oneof="binding"); book.field("soft", "message", type_name=cov, oneof="binding")
+    if "put_verb" in F:
+        rp = f.msg("ReplaceBookRequest"); rp.field("book", "message", type_name=book, required=True)
+        s.method("ReplaceBook", rp, book, http=("put", "/v1/{book.name=shelves/*/books/*}"), body="book", sigs=["book"])
+    if "lro_empty" in F:
+        pg = f.msg("PurgeBooksRequest"); pg.field("parent", required=True); pg.field("force", "bool")
+        s.method("PurgeBooks", pg, ".google.longrunning.Operation", http=("post", "/v1/{parent=shelves/*}/books:purge"), body="*",
+                 sigs=["parent"], lro=("google.protobuf.Empty", "MoveMeta"))
+    if "deprecated_method" in F:
+        s.method("OldGetBook", g, book, http=("get", "/v1/old/{name=shelves/*/books/*}"), sigs=["name"], deprecated=True)
+    if "second_file" in F:
+        # a second proto file of the same package holding messages the service file uses (cross-file types, two types modules)
+        f2 = apigen.File("acme/lib/v1/common.proto", PKG)
+        pub = f2.msg("Publisher"); pub.field("name"); pub.field("country"); pub.field("founded", "int32")
+        era = f2.enum("Era", ["ERA_UNSPECIFIED", "MODERN"])
+        f.dep("acme/lib/v1/common.proto")
+        book.field("publisher", "message", type_name=pub); book.field("era", "enum", type_name=era)
+        sp = f.msg("SetPublisherRequest"); sp.field("name", required=True); sp.field("publisher", "message", type_name=pub, required=True)
+        s.method("SetPublisher", sp, book, http=("post", "/v1/{name=shelves/*/books/*}:setPublisher"), body="publisher", sigs=["name,publisher"])
+        extra_files.append(f2)
+    return extra_files + [f]
 
 
 def service_yaml(case):
@@ -186,7 +256,7 @@ def run_pytest(root, workers=4, timeout=900):
 
 
 def one(case):
-    f = build(case)
+    files = build_files(case)
     ydir = None
     opts = list(case["opts"])
     try:
@@ -199,7 +269,7 @@ def one(case):
                           "        rest_async_io_enabled: true\n" % PKG)
             open(yp, "w").write(ytext)
             opts.append("service-yaml=" + yp)
-        req = apigen.request([f], ",".join(opts))
+        req = apigen.request(files, ",".join(opts))
         res, err = genrun.try_generate(req)
         if err:
             return {"stage": "generation", "err": err}
@@ -221,7 +291,10 @@ def norm_test(name):
 def judge(ctx, case, out):
     payload = {"case": case}
     if out["stage"] == "generation":
-        ctx.fail("generation:" + out["err"][0], f"generator raised {out['err'][0]}: {out['err'][1]}", payload)
+        sig = out["err"][0]
+        if sig.startswith("RecursionError@schema/wrappers.py"):
+            sig = "RecursionError@schema/wrappers.py"      # the innermost frame of a recursion overflow is arbitrary: keep file level
+        ctx.fail("generation:" + sig, f"generator raised {out['err'][0]}: {out['err'][1]}", payload)
         return
     ctx.count("tests_per_library", out["total"] // 50 * 50)
     ctx.notes["emitted_tests_run"] = ctx.notes.get("emitted_tests_run", 0) + out["total"]
@@ -256,6 +329,398 @@ def t2_samples(ctx, r):
                 ctx.fail("sample-does-not-match-template", f"sample {impl!r} does not match {t!r}", {"template": t})
 
 
+# ---------------------------------------------------------------------------------------------------------------------
+# T2 of the mock-value / sample-request logic (Model/Mock.lean parts 2-4) against the real schema objects
+# ---------------------------------------------------------------------------------------------------------------------
+import ast as _ast
+from decimal import Decimal as _Decimal
+
+SCALARS = ["double", "float", "int64", "uint64", "int32", "fixed64", "fixed32", "bool", "string", "bytes", "uint32", "sfixed32",
+           "sfixed64", "sint32", "sint64"]
+WKT = [".google.protobuf.Timestamp", ".google.protobuf.Duration", ".google.protobuf.FieldMask", ".google.protobuf.Any",
+       ".google.protobuf.Struct", ".google.protobuf.Value", ".google.protobuf.ListValue", ".google.protobuf.UInt32Value",
+       ".google.protobuf.StringValue", ".google.protobuf.BoolValue", ".google.protobuf.Empty", ".google.protobuf.BytesValue",
+       ".google.protobuf.DoubleValue"]
+
+
+def to_model(v):
+    """a Python mock value in the JSON shape of `pyValJson` (floats as the exact decimal of their repr)"""
+    if v is None or isinstance(v, bool):
+        return v
+    if isinstance(v, str):
+        return {"s": v}
+    if isinstance(v, bytes):
+        return {"b": list(v)}
+    if isinstance(v, int):
+        return {"i": v}
+    if isinstance(v, float):
+        sign, digits, exp = _Decimal(repr(v)).as_tuple()
+        n = int("".join(map(str, digits)))
+        return {"f": [n, -exp]} if exp <= 0 and not sign else {"f": [n * 10 ** exp, 0]}
+    if isinstance(v, dict):
+        return {"d": [[k, to_model(x)] for k, x in v.items()]}
+    if isinstance(v, (list, tuple)):
+        return {"l": [to_model(x) for x in v]}
+    raise TypeError(type(v))
+
+
+def same_val(m, v):
+    """model JSON `m` (pyValJson) describes the Python value `v`"""
+    if m is None:
+        return v is None
+    if isinstance(m, bool):
+        return isinstance(v, bool) and v == m
+    if not isinstance(m, dict):
+        return False
+    if "s" in m:
+        return isinstance(v, str) and v == m["s"]
+    if "b" in m:
+        return isinstance(v, bytes) and list(v) == m["b"]
+    if "i" in m:
+        return isinstance(v, int) and not isinstance(v, bool) and v == m["i"]
+    if "f" in m:
+        n, d = m["f"]
+        return isinstance(v, float) and abs(v - n / 10 ** d) <= 1e-12 * max(1.0, abs(v))
+    if "d" in m:
+        return isinstance(v, dict) and [k for k, _ in m["d"]] == list(v.keys()) and all(same_val(x, v[k]) for k, x in m["d"])
+    if "l" in m:
+        return isinstance(v, list) and len(v) == len(m["l"]) and all(same_val(a, b) for a, b in zip(m["l"], v))
+    return False
+
+
+def _dotted(node):
+    parts = []
+    while isinstance(node, _ast.Attribute):
+        parts.append(node.attr); node = node.value
+    if not isinstance(node, _ast.Name):
+        raise ValueError("not a dotted name")
+    parts.append(node.id)
+    return ".".join(reversed(parts))
+
+
+def same_expr(m, node):
+    """model JSON `m` (mockExprJson) describes the parsed Python expression `node` (the text of `mock_value`)"""
+    if m is None:
+        return isinstance(node, _ast.Constant) and node.value is None
+    if "lit" in m:
+        return isinstance(node, _ast.Constant) and node.value is not None and same_val(m["lit"], node.value)
+    if "enum" in m:
+        ident, name = m["enum"]
+        return isinstance(node, _ast.Attribute) and _dotted(node) == f"{ident}.{name}"
+    if "ctor" in m:
+        ident, sub, arg = m["ctor"]
+        return (isinstance(node, _ast.Call) and _dotted(node.func) == ident and not node.args and len(node.keywords) == 1
+                and node.keywords[0].arg == sub and same_expr(arg, node.keywords[0].value))
+    if "map" in m:
+        return isinstance(node, _ast.Dict) and len(node.keys) == 1 and same_expr(m["map"][0], node.keys[0]) and same_expr(m["map"][1], node.values[0])
+    if "list" in m:
+        return isinstance(node, _ast.List) and len(node.elts) == 1 and same_expr(m["list"], node.elts[0])
+    return False
+
+
+class EnvBuilder:
+    """the OBJECT graph of MessageType / Field objects reachable from the messages handed in, as the model's `Env`: one entry per
+    MessageType object (the loader keeps several copies of a recursive message), `cls` = the proto message it describes,
+    `fid` = the identity of the Field object"""
+    def __init__(self):
+        self.ids, self.defs, self.cls, self.fids, self.keep = {}, [], {}, {}, []
+
+    def msg(self, m):
+        if id(m) in self.ids:
+            return self.ids[id(m)]
+        self.keep.append(m)
+        i = self.ids[id(m)] = len(self.defs)
+        adr = m.meta.address
+        d = {"ident": str(m.ident), "cls": self.cls.setdefault(adr.proto, len(self.cls)), "map": bool(m.map),
+             "any": adr.name == "Any" and tuple(adr.package) == ("google", "protobuf"), "fields": []}
+        self.defs.append(d)
+        if len(self.defs) > 4000:
+            raise OverflowError("object graph too large")
+        d["fields"] = [self.field(f) for f in m.fields.values()]
+        return i
+
+    def field(self, f):
+        self.keep.append(f)
+        if f.message:
+            ty = ["msg", self.msg(f.message)]
+        elif f.enum:
+            ty = ["enum", str(f.type.ident), [[v.name, v.number] for v in f.type.values]]
+        else:
+            ty = ["prim", f.type.python_type.__name__]
+        return {"name": f.name, "fid": self.fids.setdefault(id(f), len(self.fids)), "repeated": bool(f.repeated), "ty": ty}
+
+
+def zoo_file(r: apigen.Rng):
+    """a message zoo: every scalar kind, odd enums, nesting, recursion (direct, mutual, through repeated fields and through map
+    values — the last also as FIRST field, which the real `mock_value` cannot finish), well-known types, `type_url` names"""
+    f = apigen.File("acme/zoo/v1/zoo.proto", "acme.zoo.v1")
+    enums = [f.enum("Plain", ["PLAIN_UNSPECIFIED", "ONE", "TWO"]), f.enum("Lone", ["LONE_UNSPECIFIED"]),
+             f.enum("Late", [("LATE_UNSPECIFIED", 0), ("ALIAS_ZERO", 0), ("NEG", -3), ("TEN", 10)]) if r.maybe(0.5) else f.enum("Late", [("LATE_UNSPECIFIED", 0), ("BIG", 2147483647)])]
+    if enums[2].pb.value[1].number == 0:
+        enums[2].pb.options.allow_alias = True
+    n = r.randint(2, 7)
+    msgs = [f.msg(f"M{i}") for i in range(n)]
+    names = ["name", "title", "type_url", "value", "x", "a1", "long_field_name_with_parts", "zz", "id", "k9", "data", "count", "ratio", "flag", "kind", "child", "items", "meta"]
+    for i, m in enumerate(msgs):
+        used = set()
+        for j in range(r.randint(0 if r.maybe(0.1) else 1, 6)):
+            nm = r.pick([x for x in names if x not in used] or [f"f{j}"]); used.add(nm)
+            roll = r.random()
+            rep = r.maybe(0.3)
+            if roll < 0.4:
+                m.field(nm, r.pick(SCALARS), repeated=rep)
+            elif roll < 0.5:
+                m.field(nm, "enum", type_name=r.pick(enums), repeated=rep)
+            elif roll < 0.75:
+                m.field(nm, "message", type_name=r.pick(msgs), repeated=rep)       # includes self and forward/backward references
+            elif roll < 0.85:
+                m.field(nm, "message", type_name=r.pick(WKT), repeated=rep)
+            elif roll < 0.93:
+                vt = r.pick(["string", "int32", "bytes", "double", "bool"])
+                m.map_field(nm, r.pick(["string", "int32", "int64", "bool"]), vt)
+            else:
+                m.map_field(nm, "string", "message", vtype_name=r.pick(msgs))       # map to a message: cyclic when it leads back here
+    return f
+
+
+def _mock_text(f):
+    try:
+        return ("ok", f.mock_value)
+    except RecursionError:
+        return ("error", "fuel")
+
+
+def t2_mock_fields(ctx, api, label, payload):
+    """mock_value_original_type / mock_value / primitive_mock / Field.type of every field of every message of the API"""
+    eb = EnvBuilder()
+    roots, fobjs = [], []
+    for m in api.messages.values():
+        i = eb.msg(m)
+        for f, fj in zip(m.fields.values(), eb.defs[i]["fields"]):
+            roots.append(fj); fobjs.append(f)
+    if not roots:
+        return
+    ops = [{"op": "c13.mock_orig", "env": eb.defs, "fields": roots}, {"op": "c13.mock_value", "env": eb.defs, "fields": roots, "depth": 40}]
+    prim = [(f, k) for f in fobjs if f.is_primitive for k in (0, 1, 2)]
+    ops += [{"op": "c13.primitive", "py": f.type.python_type.__name__, "name": f.name, "suffix": k} for f, k in prim]
+    ops += [{"op": "c13.proto_type", "type": f.field_pb.type} for f in fobjs]
+    res = ctx.driver.ask(ops)
+    origs, exprs = res[0]["values"], res[1]["values"]
+    prim_res, type_res = res[2:2 + len(prim)], res[2 + len(prim):]
+    for f, fj, mo, me in zip(fobjs, roots, origs, exprs):
+        ctx.case(distinct_key=["mock", json.dumps(fj, sort_keys=True), len(eb.defs)]); ctx.traces += 1
+        where = {**payload, "message": str(f.meta.address), "field": f.name}
+        impl = f.mock_value_original_type
+        if "ok" not in mo or not same_val(mo["ok"], impl):
+            ctx.disagree("T2:c13.mock_value_original_type", f"{label} {f.name}: model {mo} vs impl {impl!r}", where)
+        elif not mo["fits"]:
+            ctx.disagree("T2:c13.mock_original_fits", f"{label} {f.name}: the model's own typing predicate rejects {impl!r}", where)
+        ctx.count("mock_kind", "message" if f.message else "enum" if f.enum else f.type.python_type.__name__)
+        if "ok" in mo and not mo["fits_strict"]:
+            ctx.count("mock_quirk", "empty dict for a repeated message field")
+        kind, text = _mock_text(f)
+        if kind == "error":
+            ctx.count("mock_value", "RecursionError")
+            if me.get("error") != "fuel":
+                ctx.disagree("T2:c13.mock_value", f"{label} {f.name}: impl RecursionError vs model {me}", where)
+            else:
+                # the real generator cannot finish `mock_value` of this field: a failure of the mock-value logic itself
+                ctx.notes["mock_value_recursion_fields"] = ctx.notes.get("mock_value_recursion_fields", 0) + 1
+        else:
+            try:
+                ok = "ok" in me and same_expr(me["ok"], _ast.parse(text, mode="eval").body)
+            except (SyntaxError, ValueError):
+                ok = False
+            if not ok:
+                ctx.disagree("T2:c13.mock_value", f"{label} {f.name}: model {me} vs impl {text!r}", where)
+    for (f, k), mr in zip(prim, prim_res):
+        ctx.traces += 1
+        if not same_val(mr["value"], f.primitive_mock(suffix=k)):
+            ctx.disagree("T2:c13.primitive_mock", f"{f.name} suffix {k}: model {mr} vs impl {f.primitive_mock(suffix=k)!r}", payload)
+    for f, tr in zip(fobjs, type_res):
+        exp = None if (f.message or f.enum) else f.type.python_type.__name__
+        if tr["py"] != exp:
+            ctx.disagree("T2:c13.field_type", f"{f.name} proto type {f.field_pb.type}: model {tr} vs impl {exp}", payload)
+    # merged_mock_value on the message-typed fields
+    mm = [(f, other) for f in fobjs if f.message and not f.repeated for other in (None, {}, {"name": "x/y"}, {f.name: 1, "zz_new": {"a": 1}})][:40]
+    if mm:
+        mres = ctx.driver.ask([{"op": "c13.merged", "mock": to_model(f.mock_value_original_type), "other": to_model(o)} for f, o in mm])
+        for (f, o), mr in zip(mm, mres):
+            ctx.traces += 1
+            if not same_val(mr["value"], f.merged_mock_value(o)):
+                ctx.disagree("T2:c13.merged_mock_value", f"{f.name} other={o!r}: model {mr} vs impl {f.merged_mock_value(o)!r}", payload)
+
+
+def _flatten(d, pre=""):
+    out = []
+    for k, v in d.items():
+        if isinstance(v, dict) and v:
+            out += _flatten(v, pre + k + ".")
+        else:
+            out.append((pre + k, v))
+    return out
+
+
+def _nest(assigns):
+    from gapic.utils import uri_sample
+    d = {}
+    for path, v in assigns:
+        uri_sample.add_field(d, path, v)
+    return d
+
+
+def _prefix_free(paths):
+    return not any(a != b and (b + ".").startswith(a + ".") for a in paths for b in paths)
+
+
+def t2_sample_requests(ctx, api, label, payload, oracle=True):
+    """HttpRule.path_fields / sample_request, RoutingParameter.sample_request and MixinHttpRule.sample_request of every method,
+    and the ORACLE: the sample request of a rule transcodes under that very rule (api-core's own transcode + validate)"""
+    from google.api_core import path_template
+    jobs = []
+    for svc in api.services.values():
+        for meth in svc.methods.values():
+            for idx, h in enumerate(meth.http_options):
+                pf = h.path_fields(meth)
+                vars_ = [{"str": bool(fl.is_primitive and fl.type.python_type is str), "other": to_model(None if (fl.is_primitive and fl.type.python_type is str) else fl.mock_value_original_type)}
+                         for fl, _, _ in pf]
+                jobs.append(("http", meth, idx, h, pf, {"op": "c13.http_sample", "uri": h.uri, "vars": vars_}))
+            if meth.routing_rule:
+                for rp in meth.routing_rule.routing_parameters:
+                    jobs.append(("routing", meth, 0, rp, None, {"op": "c13.routing_sample", "template": rp.path_template}))
+    for name, hs in (api.mixin_http_options or {}).items():
+        for idx, h in enumerate(hs):
+            jobs.append(("mixin", name, idx, h, None, {"op": "c13.mixin_sample", "uri": h.uri, "body": h.body}))
+    res = ctx.driver.ask([j[-1] for j in jobs])
+    for (kind, meth, idx, obj, pf, _op), mo in zip(jobs, res):
+        ctx.traces += 1
+        mname = meth if isinstance(meth, str) else meth.name
+        where = {**payload, "method": mname, "binding": idx}
+        ctx.case(distinct_key=["sample", kind, _op.get("uri") or _op.get("template"), json.dumps(_op.get("vars"), sort_keys=True)])
+        if kind == "http":
+            impl = obj.sample_request(meth)
+            mvars = [(p[1], p[2]) for p in mo["pieces"] if p[0] == "var"]
+            if "mismatch" in mo or mvars != [(path, tmpl) for _, path, tmpl in pf]:
+                ctx.disagree("T2:c13.path_fields", f"{label} {mname} {obj.uri!r}: model {mvars} vs impl {[(b, c) for _, b, c in pf]}", where)
+                continue
+            paths = [path for _, path, _ in pf]
+            if not _prefix_free(paths):
+                ctx.assume("two path variables of one rule where one dotted path is a prefix of the other are not compared (add_field is modelled on leaves)")
+                continue
+            got = _nest([(k, _unmodel(v)) for k, v in mo["assigns"]])
+            if not _same_tree(got, impl):
+                ctx.disagree("T2:c13.http_sample_request", f"{label} {mname} {obj.uri!r}: model {got} vs impl {impl}", where)
+            ctx.count("sample_request_vars", len(pf))
+            if oracle and idx == 0 and len(set(paths)) == len(paths):
+                # the templates use http_options[0].sample_request: it must select and instantiate that very binding
+                leaves = dict(_flatten(impl))
+                try:
+                    kwargs = json.loads(json.dumps(impl, default=str))
+                    if obj.body and obj.body != "*":
+                        kwargs.setdefault(obj.body, {})        # the emitted tests always set the body field (merged mock)
+                    out = path_template.transcode([{"method": obj.method, "uri": obj.uri, **({"body": obj.body} if obj.body else {})}], **kwargs)
+                    good = path_template.validate(obj.uri, out["uri"])
+                    why = f"transcoded uri {out['uri']!r} does not instantiate the rule"
+                except ValueError as e:
+                    good, why = False, f"transcode finds no binding: {e}"
+                if not good:
+                    ctx.fail("sample-request-does-not-transcode:" + ("nonstring" if any(not isinstance(v, str) for v in leaves.values()) else "string"),
+                             f"{mname}: sample request {impl} of rule {obj.uri!r}: {why}", {**where, "uri": obj.uri})
+                url = mo.get("url")
+                if all(isinstance(v, str) for v in leaves.values()) and url is not None and good and url != out["uri"]:
+                    ctx.disagree("T2:c13.fill", f"{mname}: model url {url!r} vs api-core {out['uri']!r}", where)
+        elif kind == "routing":
+            impl = json.loads(obj.sample_request)
+            leaf = _flatten(impl)
+            if mo["value"] is None or len(leaf) != 1 or leaf[0] != (obj.field, mo["value"]):
+                ctx.disagree("T2:c13.routing_sample_request", f"{label} {mname} {obj.path_template!r}: model {mo} vs impl {impl}", where)
+            elif obj.path_template:
+                ctx.count("routing_sample_matches_its_regex", bool(obj.to_regex().match(mo["value"])))
+        else:
+            impl = obj.sample_request
+            got = _nest([(k, _unmodel(v)) for k, v in mo["assigns"]])
+            if got != impl:
+                ctx.disagree("T2:c13.mixin_sample_request", f"{label} {mname} {obj.uri!r}: model {got} vs impl {impl}", where)
+
+
+def _unmodel(m):
+    """model JSON → a Python value (floats as (n, d) pairs, compared by `_same_tree`)"""
+    if m is None or isinstance(m, bool):
+        return m
+    if "s" in m: return m["s"]
+    if "b" in m: return bytes(m["b"])
+    if "i" in m: return m["i"]
+    if "f" in m: return ("dec", m["f"][0], m["f"][1])
+    if "d" in m: return {k: _unmodel(v) for k, v in m["d"]}
+    if "l" in m: return [_unmodel(v) for v in m["l"]]
+    raise ValueError(m)
+
+
+def _same_tree(a, b):
+    if isinstance(a, tuple) and a and a[0] == "dec":
+        return isinstance(b, float) and abs(b - a[1] / 10 ** a[2]) <= 1e-12 * max(1.0, abs(b))
+    if isinstance(a, dict):
+        return isinstance(b, dict) and list(a) == list(b) and all(_same_tree(a[k], b[k]) for k in a)
+    if isinstance(a, list):
+        return isinstance(b, list) and len(a) == len(b) and all(_same_tree(x, y) for x, y in zip(a, b))
+    return type(a) is type(b) and a == b
+
+
+URI_SHAPES = ["/v1/{name=shelves/*/books/*}", "/v1/{name=shelves/*/books/**}", "/v1/{name}", "/v1/shelves/{name}/x/{other_shelf=racks/*}:go",
+              "/v1/{name=**}", "/v1/{name=shelves/*}/n/{num}", "/v1/n/{num}/f/{flag}/{name=*}", "/v1/{book.name=shelves/*/books/*}",
+              "/v1/{book.name=shelves/*}/g/{book.genre}/p/{book.pages}", "/v1/{name=a/*/b/*/c/*}/{other_shelf=**}", "/v1/static",
+              "/v1/{name=shelves/*}/books/{book.title}:verb", "/v2/{ratio}/{name}", "/v1/{name=projects/*/locations/*/shelves/*}/books"]
+
+
+def sample_api(r: apigen.Rng):
+    """methods whose rules use every variable form (bare, templated, `**`, dotted, several per rule, non-string kinds), plus
+    explicit routing parameters of every form"""
+    f = apigen.File("acme/lib/v1/lib.proto", PKG)
+    genre = f.enum("Genre", ["GENRE_UNSPECIFIED", "FICTION"])
+    book = f.msg("Book"); book.field("name"); book.field("title"); book.field("pages", "int32"); book.field("genre", "enum", type_name=genre)
+    s = f.service("Library")
+    for i, uri in enumerate(r.sample(URI_SHAPES, r.randint(3, 8))):
+        q = f.msg(f"Op{i}Request"); q.field("name"); q.field("other_shelf"); q.field("num", r.pick(["int32", "int64", "uint32"]))
+        q.field("flag", "bool"); q.field("ratio", r.pick(["double", "float"])); q.field("book", "message", type_name=book); q.field("note")
+        verb = r.pick(["get", "post", "put", "patch", "delete"])
+        routing = None
+        if r.maybe(0.5):
+            routing = [r.pick([("name", "{shelf=shelves/*}/**"), ("name", None), ("name", "{whole=**}"), ("other_shelf", "racks/{rack=*}"),
+                               ("book.name", "{shelf_id=shelves/*}/books/*"), ("name", "projects/*/{loc=locations/*}/**"), ("note", "{note=*}")])
+                       for _ in range(r.randint(1, 3))]
+        s.method(f"Op{i}", q, book, http=(verb, uri), body=("*" if verb in ("post", "put", "patch") and r.maybe(0.6) else None), routing=routing)
+    return f
+
+
+def t2_model(ctx, r):
+    n_zoo, n_samp = ctx.n(25, 600), ctx.n(12, 300)
+    for i in range(n_zoo):
+        f = zoo_file(r)
+        api, _ = genrun.build_api(apigen.request([f], "transport=grpc+rest"))
+        t2_mock_fields(ctx, api, f"zoo#{i}", {"t2": "zoo", "index": i, "seed": ctx.seed})
+    for i in range(n_samp):
+        f = sample_api(r)
+        api, _ = genrun.build_api(apigen.request([f], "transport=grpc+rest"))
+        t2_sample_requests(ctx, api, f"sample#{i}", {"t2": "sample_api", "index": i, "seed": ctx.seed})
+
+
+def t2_profile(ctx, case):
+    """the same correspondences on an API of the conventional profile (incl. the mixin rules of its service yaml)"""
+    files = build_files(case)
+    ydir = None
+    opts = [o for o in case["opts"]]
+    try:
+        if case["mixins"]:
+            ydir = tempfile.mkdtemp(prefix="gapicverif_yaml_", dir=genrun.SCRATCH)
+            yp = os.path.join(ydir, "service.yaml"); open(yp, "w").write(service_yaml(case)); opts.append("service-yaml=" + yp)
+        api, _ = genrun.build_api(apigen.request(files, ",".join(opts)))
+        t2_mock_fields(ctx, api, "profile", {"case": case})
+        t2_sample_requests(ctx, api, "profile", {"case": case})
+    finally:
+        if ydir:
+            shutil.rmtree(ydir, ignore_errors=True)
+
+
 ALL_BUT_PAGING_VARIANTS = [f for f in FEATURES if f not in ("paged_scalar", "paged_map", "paged_wrapper", "keyword_rpc")]
 CORPUS = [
     {"features": ["custom_lro", "paged_wrapper", "server_stream", "scalars", "uuid4", "routing"], "opts": ["transport=grpc+rest"], "mixins": ["operations"], "ads": False, "rest_async": True},
@@ -266,18 +731,30 @@ CORPUS = [
     {"features": ALL_BUT_PAGING_VARIANTS + ["paged_map"], "opts": ["transport=grpc", "metadata"], "mixins": ["operations"], "ads": False},
     {"features": ["custom_lro", "server_stream", "int_path_var", "delete_void", "map_field", "nested", "two_path_vars", "additional_bindings"],
      "opts": ["transport=grpc+rest", "python-gapic-templates=ads-templates", "old-naming"], "mixins": [], "ads": True},
+    # open finding (corpus/C13/recursive_map_first_field.json): `Field.mock_value` of a flattened message whose first field is a map
+    # back to the message never ends; replayed on every run
+    {"features": ["tree_map_first"], "opts": ["transport=grpc"], "mixins": [], "ads": False},
+    # the same tree with the map in second position is part of the profile; naming overrides
+    {"features": ["tree_map", "wkt_flattened", "second_file", "nested_enum", "enum_late_nonzero", "lro_empty"],
+     "opts": ["transport=grpc+rest", "python-gapic-namespace=Acme", "python-gapic-name=libra", "warehouse-package-name=acme-libra"], "mixins": [], "ads": False},
 ]
 
 
 def run(ctx):
     ctx.rule = ("conventional profile of DESIGN §8.1: CRUD + custom/LRO + streaming methods, resources, scalar/enum/message/map/repeated/oneof/"
                 "optional/reserved-word fields, required query fields, routing, additional bindings, paging variants x option sets (transports, "
-                "mixins via service-yaml, numeric enums, add-iam-methods, metadata, ads templates); each case = one generated library whose "
-                "emitted tests/unit suite is run with pytest; distinct by (features, options)")
+                "mixins via service-yaml, numeric enums, add-iam-methods, metadata, naming overrides, lazy-import, async REST, ads templates); each "
+                "case = one generated library whose emitted tests/unit suite is run with pytest, distinct by (features, options); plus T2 cases: "
+                "one per (field, object graph) of a message zoo / profile API and one per (rule, variable kinds) of a rule zoo")
     ctx.assume("excluded shapes E1-E5 of DESIGN §8.2 are not generated; async REST cannot be enabled through options at this commit")
+    ctx.assume("enum values with negative numbers are not generated (the emitted types module does not import: proto-plus orders values by number; "
+               "a C01/C02 matter)")
     r = ctx.rng("conventional")
     t2_samples(ctx, r)
-    cases = list(CORPUS) + [gen_case(r) for _ in range(ctx.n(8, 160))]
+    t2_model(ctx, ctx.rng("model"))
+    cases = list(CORPUS) + [gen_case(r) for _ in range(ctx.n(14, 420))]
+    for case in cases[2:5] + cases[len(CORPUS):len(CORPUS) + ctx.n(6, 100)]:
+        t2_profile(ctx, case)
     with ThreadPoolExecutor(max_workers=4) as ex:
         outs = list(ex.map(one, cases))
     for case, out in zip(cases, outs):
@@ -299,20 +776,41 @@ def search(ctx):
 
 
 def replay(ctx, payload):
-    out = one(payload["case"])
-    judge(ctx, payload["case"], out)
+    if "case" in payload and "method" not in payload and "message" not in payload:
+        out = one(payload["case"])
+        judge(ctx, payload["case"], out)
+    elif "case" in payload:                       # a T2 disagreement / sample-request oracle failure on a profile API
+        t2_profile(ctx, payload["case"])
+    elif payload.get("t2"):                       # the zoo / sample_api streams are a function of the seed alone
+        ctx.seed = payload.get("seed", ctx.seed)
+        t2_model(ctx, ctx.rng("model"))
+    elif "template" in payload:
+        t2_samples(ctx, ctx.rng("conventional"))
+    for d in ctx.disagreements:
+        print("  disagreement:", d["correspondence"], "-", d["what"])
     for f in ctx.failures:
         print("  failure:", f["key"], "-", f["what"])
-    return not ctx.failures
+    return not ctx.failures and not ctx.disagreements
 
 
 CLAIM = dict(
     text="PARTIAL by nature: `the emitted suite passes` is the agreement of two template families under pytest and is decided by EXECUTION "
-         "(pytest on the emitted tests/unit of every generated library of the conventional profile, all option sets that change the surface). "
-         "What is logic is proved in Lean 4: the sample requests the emitted tests rely on instantiate their path templates for every "
-         "template (sample_matches_template) with fresh consecutive values per wildcard (sample_names_fresh). Tie: T2 of "
-         "uri_sample.sample_from_path_fields vs the model and api-core's own path_template.validate on the samples.",
-    technique="generate-and-run exploration of the emitted test suite + Lean 4 theorems about the sample-request logic (induction on template tokens)",
+         "(pytest on the emitted tests/unit of every generated library of the conventional profile, all option sets that change the surface, "
+         "incl. naming overrides, lazy-import, a second proto file, tree/map, well-known-type and alias-enum shapes). "
+         "What is logic is proved in Lean 4 about a model of the code the emitted tests depend on (gapic/utils/uri_sample.py, Field.type / "
+         "primitive_mock / mock_value_original_type / merged_mock_value / mock_value / inner_mock, HttpRule.path_fields / sample_request, "
+         "MixinHttpRule.sample_request, RoutingParameter.sample_request): sample values instantiate their templates with fresh names "
+         "(sample_matches_template, sample_names_fresh); the sample request of an http rule written back into the rule matches the rule's own "
+         "path template (http_sample_request_fills_rule, sample_request_lookup; duplicate variable = counterexample); mock values are well-typed "
+         "for the field kind (primitive_mock_well_typed, mock_original_fits with the `{}`-for-a-repeated-message quirk kept as "
+         "mock_original_strict_counterexample), floats lie in [0.1, 1), ints fit int32, enum mocks are declared numbers; "
+         "mock_value_original_type always ends (mock_original_terminates); mock_value is independent of the recursion depth once it has a "
+         "value and has none for a message whose first field is a map back to itself (mock_value_self_map_counterexample = an open finding). "
+         "Tie: T2 of every one of these functions on the real schema objects (object graph of the loaded API as the model's environment) for "
+         "random message zoos, rule zoos and APIs of the profile; api-core's path_template.validate / transcode as the external meaning of "
+         "`Matches` / `UrlMatches` (oracle: the sample request of a rule transcodes under that very rule).",
+    technique="generate-and-run exploration of the emitted test suite + Lean 4 theorems about the mock-value and sample-request logic "
+              "(induction on template tokens, visited-set invariant with a pigeonhole bound, fuel monotonicity)",
     design="7.13 and 8",
     note="No executable model short of re-implementing ~6k lines of templates expresses `the suite passes`; the Lean part covers supporting logic only.",
 )
